@@ -267,6 +267,18 @@ Theorem C05_registry_ofb_sound :
 Proof. exact registry_ofb_sound. Qed.
 Print Assumptions C05_registry_ofb_sound.
 
+(** what [corr_registry_of] (Corr/RunC05.v) establishes on every generated case: the first two
+    clauses of [RegistryOf] - every labelled id has the derive's entry for its label, the
+    unlabelled entries are the bit-order markers *)
+Theorem C05_registry_entries_ofb_sound :
+  forall defs labels r,
+    registry_entries_ofb defs labels r = true -> prelude_nodocs_b r = true ->
+    (forall id c, label_at labels id = Some c ->
+       exists t, resolve r id = Some t /\ entry_of defs (label_at labels) r c t) /\
+    (forall id t, resolve r id = Some t -> label_at labels id = None -> exists lsb, order_marker lsb t).
+Proof. exact registry_entries_ofb_sound. Qed.
+Print Assumptions C05_registry_entries_ofb_sound.
+
 Theorem C05_registry_ofb_split :
   forall defs labels r,
     registry_ofb defs labels r = registry_entries_ofb defs labels r && labels_injectiveb labels.
